@@ -22,4 +22,18 @@ pub assume_specification [<str as std::convert::AsRef<str>>::as_ref] (s: &str) -
     ensures r@ == s@;
 pub assume_specification<T, F: FnOnce(T) -> bool> [Option::<T>::is_some_and] (o: Option<T>, f: F) -> (r: bool)
     ensures o is None ==> !r, o is Some ==> f.ensures((o->0,), r);
-pub assume_specification<P: std::str::pattern::Pattern> [str::starts_with] (s: &str, p: P) -> (r: bool);
+// A-STD (trusted): model of std::str::pattern::Pattern for the two pattern types the code base uses (char, &str)
+pub uninterp spec fn pat_is_char<P>() -> bool;
+pub uninterp spec fn pat_char<P>(p: P) -> char;
+#[verifier::external_body]
+pub proof fn axiom_pat_char(c: char)
+    ensures pat_is_char::<char>(), pat_char::<char>(c) == c
+{}
+pub uninterp spec fn pat_is_str<P>() -> bool;
+pub uninterp spec fn pat_str<P>(p: P) -> Seq<char>;
+#[verifier::external_body]
+pub proof fn axiom_pat_str<'a>(p: &'a str)
+    ensures pat_is_str::<&'a str>(), pat_str::<&'a str>(p) == p@
+{}
+pub assume_specification<P: std::str::pattern::Pattern> [str::starts_with] (s: &str, p: P) -> (r: bool)
+    ensures pat_is_str::<P>() ==> r == (s@.len() >= pat_str(p).len() && s@.take(pat_str(p).len() as int) == pat_str(p));
